@@ -232,6 +232,9 @@ def _run_grid(case):
             continue
         if tier != "quick" and len(grid) == 5 and len(set(np.diff(grid))) > 2:
             continue
+        cond = compare.init_conditioning(std0, 1.0, np.min(np.diff(grid)), q)  # a-priori rule, see compare.py (same as C02)
+        if cond > 1e4:
+            continue
         for damp in (0.0, DAMP):
             out = _tonumpy(prog(jnp.asarray(C), jnp.asarray(grid), jnp.asarray(tc), jnp.ones(d), damp))
             try:
@@ -240,8 +243,8 @@ def _run_grid(case):
                 continue
             n_ref += 1
             idxs = list(range(len(grid)))
-            _check_solution(case, fails, wk, f"grid={grid} damp={damp}", out, res, sm, G, grid, idxs, "fixedinterval", _smooth_amp(grid, q))
-            ssmcheck.compare_scales(fails, f"grid={grid} damp={damp}", out["output_scale"], res, idxs[-out["output_scale"].shape[0]:], [1e0 * _smooth_amp(grid, q)] * len(idxs), wk)
+            _check_solution(case, fails, wk, f"grid={grid} damp={damp}", out, res, sm, G, grid, idxs, "fixedinterval", _smooth_amp(grid, q) * cond)
+            ssmcheck.compare_scales(fails, f"grid={grid} damp={damp}", out["output_scale"], res, idxs[-out["output_scale"].shape[0]:], [1e0 * _smooth_amp(grid, q) * cond] * len(idxs), wk)
             # (ii) terminal smoothing marginal == terminal filtering marginal, implementation against itself (exact)
             if not (np.array_equal(out["mean"][-1], out["filt_mean"][-1]) or np.allclose(out["mean"][-1], out["filt_mean"][-1], rtol=1e-12, atol=0)):
                 fails.append(core.fail("terminal_smoothing_marginal_differs_from_filtering", f"grid={grid}: {out['mean'][-1][:d]} vs {out['filt_mean'][-1][:d]}"))
